@@ -779,6 +779,9 @@ sqf::runtime::runtime::result sqf::runtime::runtime::execute(sqf::runtime::runti
         {
             while (!eval_context->empty())
             {
+                // An evaluation is not scheduled: nobody would ever wake a context that asked to pause (waitUntil
+                // between two polls), execute_do would return at once for ever. The pause is skipped instead.
+                if (eval_context->suspended()) { eval_context->unsuspend(); }
                 m_state = runtime::state::running;
                 auto res = execute_do(*this, 1);
                 if (res == result::runtime_error || m_runtime_error) { failed = true; break; }
